@@ -91,7 +91,48 @@ def _parse_item(it):
 
 def norm_expr(e):
     e = "".join(e.split())
-    return e
+    return canon_eq(e)
+
+
+def canon_eq(e):
+    """`a == b` and `b == a` are one constraint: a lone top-level equality / inequality is written with its operands in
+    lexicographic order (same for the expected strings of the rules, which pass through here too)."""
+    depth = 0
+    pos = []
+    i = 0
+    while i < len(e):
+        ch = e[i]
+        if ch in "([{":
+            depth += 1
+        elif ch in ")]}":
+            depth -= 1
+        elif depth == 0 and e[i:i + 2] in ("==", "!=") and (i == 0 or e[i - 1] not in "<>=!") :
+            pos.append(i)
+            i += 1
+        elif depth == 0 and (e[i:i + 2] in ("&&", "||", "<=", ">=") or (ch in "<>" and e[i:i + 2] not in ("->",) and e[i - 1:i] != "-")):
+            return e
+        i += 1
+    if len(pos) != 1:
+        return e
+    a, op, b = e[:pos[0]], e[pos[0]:pos[0] + 2], e[pos[0] + 2:]
+    if not a or not b or a.startswith("!"):
+        return e
+    import re as _re
+    lit = lambda x: bool(_re.fullmatch(r"[0-9_]+(?:[iu](?:8|16|32|64|128|size))?|true|false", x))
+    if lit(b):
+        return e
+    if lit(a):
+        return b + op + a       # the literal on the right
+    return e if a <= b else b + op + a
+
+
+def canon_cons(s):
+    """The same for a `key=expr` string."""
+    if "=" in s and not s.startswith("="):
+        k, _, v = s.partition("=")
+        if v and not v.startswith("="):
+            return k + "=" + canon_eq(v)
+    return s
 
 
 class AccountsStruct:
